@@ -128,6 +128,20 @@ def run(ctx):
     t2 = src(rj)
     ok = "self.workflow_promise.do_reject(error)" in t2
     r3.check(ok, f"{m.rel}:{lc.REJECT}:workflow-error", "an error that is not job specific does not reject the workflow promise", m.rel, rj.lineno)
+    # the failure is recorded even when the exception object cannot be serialised (frozen fact: pickling an object that holds
+    # a lock/generator/local function raises TypeError or AttributeError, or pickle.PicklingError)
+    from ..raises import handler_names, is_subclass
+
+    tries = [n for n in ast.walk(rj) if isinstance(n, ast.Try) and any("record_value" in src(b) and "error_value" in src(b) for b in n.body)]
+    ok = False
+    covered = []
+    if tries:
+        hs = [x for h in tries[0].handlers for x in handler_names(h)]
+        covered = [e for e in ("TypeError", "AttributeError", "PicklingError") if any(is_subclass(e, h) or (e == "PicklingError" and h in ("PicklingError", "PickleError")) for h in hs)]
+        fallback = any("record_value" in src(b) and "ErrorValue(" in " ".join(src(x) for x in h.body) for h in tries[0].handlers for b in h.body)
+        ok = {"TypeError", "AttributeError"} <= set(covered) and fallback
+    r3.check(ok, f"{m.rel}:{lc.REJECT}:unserialisable-error-fallback", f"recording the ErrorValue is not protected against errors that cannot be pickled (handled: {covered}; pickling raises TypeError/AttributeError for objects holding locks, generators or local functions): such a failure escapes the event loop, run() raises the pickling error instead of the task's, and the job and its ancestors are never recorded as failed", m.rel, rj.lineno)
+
     jr = m.func("Job.reject")
     r3.check("self.result_promise.do_reject(error)" in src(jr), f"{m.rel}:Job.reject", "Job.reject does not reject the job's result promise with the error (ancestors would not fail)", m.rel, jr.lineno)
     run_ = m.func("Scheduler.run")
